@@ -201,10 +201,77 @@ def exec_part(ctx, rp):
     ctx.obligation('executor under %d thread schedules: every accepted task is handed on once, with a true outcome' % n, 'tie', True, '')
 
 
+def gen_early_script(rng):
+    """client-side scheduler callbacks in which tasks naming a pilot arrive (in several bulks) before,
+    between and after the add_pilots command of that pilot; at the end every pilot named is added"""
+    npil = rng.randint(1, 3)
+    ops, uid, added = [], 0, set()
+    for _ in range(rng.randint(2, 8)):
+        r = rng.random()
+        if r < 0.7:
+            ts = []
+            for _ in range(rng.randint(1, 3)):
+                ts.append({'uid': uid, 'cores': 1, 'pilot': rng.randrange(npil) if rng.random() < 0.8 else None}); uid += 1
+            ops.append({'op': 'work', 'tasks': ts})
+        elif r < 0.85:
+            cand = [p for p in range(npil) if p not in added]
+            if cand:
+                pid = rng.choice(cand); added.add(pid)
+                ops.append({'op': 'add', 'pids': [pid], 'cores': [8], 'stale': 0})
+        else:
+            ops.append({'op': 'pilot_state', 'pid': rng.randrange(npil), 'state': 'PMGR_ACTIVE'})
+    for pid in range(npil):
+        if pid not in added:
+            ops.append({'op': 'add', 'pids': [pid], 'cores': [8], 'stale': 0})
+    return ops, npil
+
+
+def tmgrsched_monitor(c12, rp, kind, sc):
+    """every task which names a pilot is handed on (to that pilot) once the pilot is added; no task is lost"""
+    ops, res, viol, s = c12.run_script(rp, kind, sc)
+    fwd = {}
+    for r in res:
+        for o in r['outs']:
+            if o[0] == 'fwd': fwd.setdefault(o[1], []).append(o[2])
+    for v in viol:
+        if v[0] == 'task-lost':
+            return ops, res, ('tmgr-scheduler:task-lost', v[1] + ' - it can never reach a final state although its pilot is added and alive')
+    for op in sc:
+        if op['op'] != 'work': continue
+        for t in op['tasks']:
+            if t['pilot'] is not None and fwd.get(t['uid']) != [t['pilot']]:
+                return ops, res, ('tmgr-scheduler:pilot-bound-task-never-handed-on',
+                                  'task %d names pilot %d, the pilot was added, the task was forwarded to %s' % (t['uid'], t['pilot'], fwd.get(t['uid'])))
+    return ops, res, None
+
+
+EARLY_CORPUS = [
+    [{'op': 'work', 'tasks': [{'uid': 0, 'cores': 1, 'pilot': 0}]}, {'op': 'work', 'tasks': [{'uid': 1, 'cores': 1, 'pilot': 0}]},
+     {'op': 'add', 'pids': [0], 'cores': [8], 'stale': 0}],
+]
+
+
+def tmgrsched_part(ctx, rp):
+    from props import c12
+    cfg = c12.bf_cfg(rp)
+    n = 0
+    for kind in ('rr', 'bf'):
+        mops, impl = [], []
+        for sc in [list(x) for x in EARLY_CORPUS] + [gen_early_script(ctx.rng)[0] for _ in range(ctx.n(120, 4000))]:
+            ops, res, bad = tmgrsched_monitor(c12, rp, kind, sc)
+            n += 1
+            nb = sum(1 for o in sc if o['op'] == 'work' and any(t['pilot'] is not None for t in o['tasks']))
+            ctx.case({'tmgr_sched': kind, 'ops': sc}, nontrivial=nb > 1)
+            if bad:
+                ctx.fail(bad[0], bad[1], {'kind': 'tmgrsched', 'sched': kind, 'ops': sc})
+    ctx.obligation('client-side scheduler under %d callback scripts with pilot-bound tasks arriving before their pilot: every task is handed on' % n, 'tie', True, '')
+
+
 def run(ctx):
     rp  = rpload.load()
     rng = ctx.rng
     exec_part(ctx, rp)
+    tmgrsched_part(ctx, rp)
     ops, impl = [], []
     dist = {'bulks': 0, 'tasks': 0, 'final': {}, 'faulty': 0}
     bulks = [list(b) for b in CORPUS] + [[gen_plan(rng) for _ in range(rng.choice([1, 2, 3, 5]))] for _ in range(ctx.n(45, 2000))]
@@ -295,6 +362,12 @@ def replay(ctx, data):
         obs, done, rec, quiet = c07.run_schedule(rp, i['choices'])
         bad = exec_monitor(done, obs, rec, quiet)
         print(obs[-1] if obs else None, bad)
+        return bad is None
+    if i['kind'] == 'tmgrsched':
+        from props import c12
+        ops, res, bad = tmgrsched_monitor(c12, rp, i['sched'], i['ops'])
+        for r in res: print(r['outs'], r['err'])
+        print(bad)
         return bad is None
     if i['kind'] == 'bulk':
         bus, uids = run_bulk(rp, i['plans'])
